@@ -28,7 +28,7 @@ var (
 
 func loadTransitions() {
 	transOnce.Do(func() {
-		for _, z := range []ZoneSpec{zNY, zBerlin} {
+		for _, z := range tableZones {
 			loc := z.Loc()
 			set := map[int64]bool{}
 			var list []int64
@@ -110,6 +110,17 @@ func (g *gen) pick64(vs ...int64) int64 { return vs[g.rng.Intn(len(vs))] }
 
 // boundaryDay draws a local day of the cycle, mostly on a boundary class; returns the class drawn.
 func (g *gen) boundaryDay(z ZoneSpec) (int64, string) {
+	if z.Fixed {
+		return g.boundaryDayAny(z)
+	}
+	for { // table zones: only days covered by the extracted transition table (zone.go)
+		if n, cls := g.boundaryDayAny(z); n >= zoneDayLo && n <= zoneDayHi {
+			return n, cls
+		}
+	}
+}
+
+func (g *gen) boundaryDayAny(z ZoneSpec) (int64, string) {
 	loadTransitions()
 	r := g.rng
 	rnd := func() int64 { return cycleDay0 + int64(r.Intn(int(cycleDays))) }
@@ -319,7 +330,9 @@ func (g *gen) winCase(z ZoneSpec) Case {
 // ---------------------------------------------------------------- recording
 
 type sink struct {
-	out *vh.Out
+	out  *vh.Out
+	full *vh.Out // table zones: the cases evaluated over the whole extracted tables (defined in this Out's shard header)
+	nTab int
 }
 
 func (s *sink) record(c *Case) {
@@ -330,6 +343,13 @@ func (s *sink) record(c *Case) {
 func (s *sink) recordRun(c *Case) {
 	v := monitor(c)
 	out := s.out
+	if s.full != nil && !c.Zone.Fixed && c.Kind != "sweep" {
+		s.nTab++
+		if c.Kind == "zlook" || c.Kind == "zok" || s.nTab%16 == 0 {
+			c.fullTab = true
+			out = s.full
+		}
+	}
 	nt := false
 	loc := c.Zone.Loc()
 	out.Count("kind", c.Kind)
@@ -383,8 +403,34 @@ func (s *sink) recordRun(c *Case) {
 	case "sweep":
 		nt = c.sweepNT > 0
 		out.Count("sweep_instants", fmt.Sprint(c.sweepN))
+	case "zlook":
+		nt = true
+		out.Count("lookup_class", c.Class)
+	case "zok":
+		nt = true
 	}
-	out.Add(c, c.coqCase(out.N()), nt, v)
+	if !c.Zone.Fixed && c.Kind == "inst" { // how many generated days have a regular local midnight (hypothesis of the C19_dst_* theorems)
+		out.Count("midnight_regular:"+c.Zone.Name, fmt.Sprint(c.MidReg))
+	}
+	if !c.Zone.Fixed && c.Kind == "date" {
+		y, mo, d := c.F[0], c.F[1], c.F[2]
+		if mo >= 1 && mo <= 12 {
+			w := (refDay(y, mo, 1)+d-1)*86400 + c.F[3]*3600 + c.F[4]*60 + c.F[5]
+			out.Count("date_wall_clock_occurrences:"+c.Zone.Name, fmt.Sprint(wallCount(c.Zone, w)))
+		}
+	}
+	for _, sk := range c.skips {
+		out.Count("monitor_checks_skipped:"+c.Zone.Name, sk)
+	}
+	term := c.coqCase(out.N())
+	if !c.Zone.Fixed && c.Kind != "sweep" {
+		if term == "" {
+			out.Count("table_zone_cases", "monitors-only")
+		} else {
+			out.Count("table_zone_cases", "evaluated-over-table")
+		}
+	}
+	out.Add(c, term, nt, v)
 }
 
 func replay(path string) {
@@ -437,7 +483,7 @@ func main() {
 	loadTransitions()
 
 	// ------------------------------------------------------------ moment: fixed-offset zones, model + monitors
-	mo := &sink{vh.NewOut(f.Out, "moment", coqHeader, "case", "mismatches", f.Seed,
+	mo := &sink{out: vh.NewOut(f.Out, "moment", coqHeader, "case", "mismatches", f.Seed,
 		"one case = one instant (or pair of instants) in a fixed-offset zone (UTC, +08:00, -05:00, +05:45, -04:56:02; time.Local set to the same zone, "+
 			"a tenth with a different one) with every helper of moment.go evaluated on it (weekday x week offset -3..3 x day offset x h:m:s drawn per case), "+
 			"time.Date with overflowing fields and AddDate; days drawn from 1900..2299 mostly on boundaries; compared output by output with the Coq model and checked by the Go monitors; "+
@@ -489,7 +535,7 @@ func main() {
 	mo.out.Close()
 
 	// ------------------------------------------------------------ period: lattice pairs + windows
-	pe := &sink{vh.NewOut(f.Out, "period", coqHeader, "case", "mismatches", f.Seed,
+	pe := &sink{out: vh.NewOut(f.Out, "period", coqHeader, "case", "mismatches", f.Seed,
 		"all 6^4 pairs of periods (NewPeriod(a,b), NewPeriod(c,d)) with endpoints on a 6-point lattice (the second period represented in the same or in another Location: same instants), for several lattices (1 ns, 1 s, 1 h, 1 day steps, one containing the zero time), "+
 			"the same raw (Period{a,b} without normalisation) for one lattice, and windows NewPeriodWindow / NewPeriodWith<Unit>; "+
 			"non-trivial = the four endpoints are not pairwise distinct (touching, nested on an endpoint, equal or empty periods); window: anchor on a boundary date")}
@@ -536,28 +582,61 @@ func main() {
 	// ------------------------------------------------------------ stateline: the ordered container of state_line.go
 	runStateLine(f, rng, scale)
 
-	// ------------------------------------------------------------ dst: IANA zones, monitors only
-	ds := &sink{vh.NewOut(f.Out, "dst", coqHeader, "case", "mismatches", f.Seed,
-		"America/New_York and Europe/Berlin (time.Local set to the zone): instants concentrated on the DST transition days and the other boundaries, "+
-			"every helper checked by the Go monitors with package time as the wall-clock oracle (no Coq evaluation: the model has fixed offsets only); "+
+	// ------------------------------------------------------------ dst: IANA zones, transition-table model + monitors
+	ds := &sink{out: vh.NewOut(f.Out, "dst", zoneCoqImports, "zcase", "zmismatches", f.Seed,
+		"IANA zones America/New_York, Europe/Berlin, Australia/Lord_Howe (30-minute shift), America/Sao_Paulo and America/Havana (DST starts at local midnight), "+
+			"Asia/Kathmandu, Pacific/Apia (skipped 2011-12-30), time.Local set to the zone; the transition table of each zone is extracted from package time "+
+			"(Time.ZoneBounds, 1890..2110, including the pieces of the TZ extend rule) and printed into every Coq shard; instants of 1901..2099 concentrated on the transition days and the other boundaries; "+
+			"every output of every helper (inst / pair cases), time.Date with wall clocks at and inside gaps and repeated intervals, AddDate, Location.lookup (offset, start, end) "+
+			"and the well-formedness of the table (zone_okb 18h 36h) are compared with the transition-table model evaluated in Coq (MV.C19.ZoneRun), and checked by the Go monitors with package time as wall-clock oracle; "+
 			"sweep cases = blocks of consecutive local days x 5 instants (00:00:00, 00:00:01, 12:00:00, 23:59:59, random) with, at 00:00:00 and 23:59:59, "+
-			"the five week helpers for every weekday x week offset -3..3 (quick: 2023..2026, thorough: all 146097 days of 1900..2299); non-trivial as for 'moment'")}
+			"the five week helpers for every weekday x week offset -3..3 (quick: 2023..2026, thorough: all 146097 days of 1900..2299), monitors only; non-trivial as for 'moment'; "+
+			"a helper case carries the part of its zone's table within 800 days of its instants (AddDate: 2200 days); one helper case in 16, every lookup and the well-formedness cases are evaluated over the WHOLE tables (sub-harness dsttab)")}
+	ds.full = vh.NewOut(f.Out, "dsttab", zoneCoqHeader(), "zcase", "zmismatches", f.Seed,
+		"the cases of sub-harness dst that are evaluated over the whole extracted transition table of their zone (one definition per zone in the shard header): "+
+			"Location.lookup (offset, start, end) at and around every kind of transition, zone_okb 18h 36h of each table, and one helper case in 16; non-trivial as for 'dst'")
+	ds.out.PerShard = 200
+	ds.full.PerShard = 250
+	for _, z := range tableZones {
+		tb := extractTable(z)
+		c := Case{Kind: "zok", Zone: z, Local: z, F: [7]int64{okB, okD}, Class: "table-well-formed"}
+		ds.record(&c)
+		ds.out.Count("table_transitions", fmt.Sprintf("%s:%d", z.Name, len(tb.Trans)))
+		ds.out.Count("table_transitions_without_offset_change", fmt.Sprintf("%s:%d", z.Name, tb.NoOpTrans))
+		ds.out.Count("table_max_abs_offset_s", fmt.Sprintf("%s:%d", z.Name, tb.MaxAbsOff))
+		ds.out.Count("table_min_gap_s", fmt.Sprintf("%s:%d", z.Name, tb.MinGap))
+		ds.out.Count("table_lookup_end_quirks", fmt.Sprintf("%s:%d", z.Name, tb.Quirks))
+	}
 	for _, c := range corpusDST() {
 		c := c
 		ds.record(&c)
 	}
-	for _, z := range []ZoneSpec{zNY, zBerlin} {
-		for i := 0; i < 1200*scale; i++ {
+	for _, z := range tableZones {
+		nInstCases, nSmall := 900, 100
+		if z != zNY && z != zBerlin {
+			nInstCases = 240
+		}
+		for i := 0; i < nInstCases*scale; i++ {
 			cr, _ := rng.Derive()
 			g := &gen{cr}
 			c := g.instCase(z, z)
 			ds.record(&c)
 		}
-		for i := 0; i < 300*scale; i++ {
+		for i := 0; i < nInstCases*scale/4; i++ {
 			cr, _ := rng.Derive()
 			g := &gen{cr}
 			c := g.pairCase(z, z)
 			ds.record(&c)
+		}
+		for i := 0; i < nSmall*scale; i++ {
+			cr, _ := rng.Derive()
+			g := &gen{cr}
+			c := g.zdateCase(z)
+			ds.record(&c)
+			c2 := g.zlookCase(z)
+			ds.record(&c2)
+			c3 := g.addDateCase(z)
+			ds.record(&c3)
 		}
 	}
 	// sweep of the DST zones: quick = the years 2023..2026, thorough = the whole cycle with all 49 weekday x offset pairs
@@ -569,9 +648,10 @@ func main() {
 		runSweeps(ds, z, d0, n, sweepBlock, int64(f.Seed%1000003), true)
 	}
 	ds.out.Close()
+	ds.full.Close()
 
 	// ------------------------------------------------------------ sweep: fixed zones, monitors + digest recomputed by the model
-	sw := &sink{vh.NewOut(f.Out, "sweep", coqHeader, "case", "mismatches", f.Seed,
+	sw := &sink{out: vh.NewOut(f.Out, "sweep", coqHeader, "case", "mismatches", f.Seed,
 		"one case = a block of consecutive local days x 5 instants per day (00:00:00, 00:00:01, 12:00:00, 23:59:59, pseudo-random second+ns) in a fixed-offset zone; "+
 			"all one-instant helpers run on every instant, every output checked by the Go monitors and folded into a 63-bit position-weighted digest that the Coq model recomputes from (zone, first day, count, seed); "+
 			"the model side uses the closed-form evaluator sweep_fast, proved equal to the fold of the model's own functions (theorem C19_sweep_evaluator_sound); "+
@@ -688,5 +768,25 @@ func corpusDST() []Case {
 	// next moment 02:30 asked at 04:00 on the spring-forward day: today's 02:30 does not exist
 	cs = append(cs, Case{Kind: "inst", Zone: zNY, Local: zNY, T: at(zNY, 2024, 3, 10, 4, 0, 0, 0), W: 1, Kw: 0, Nd: 0, H: 2, M: 30, S: 0, Class: "dst-witness"})
 	cs = append(cs, Case{Kind: "inst", Zone: zBerlin, Local: zBerlin, T: at(zBerlin, 2024, 3, 31, 4, 0, 0, 0), W: 1, Kw: 0, Nd: 0, H: 2, M: 30, S: 0, Class: "dst-witness"})
+	// days without a (unique) local midnight and other irregular days of the table zones
+	for _, x := range []struct {
+		z          ZoneSpec
+		y, m, d, h int
+	}{
+		{zSaoPaulo, 2017, 10, 15, 12}, {zSaoPaulo, 2017, 10, 14, 23}, {zSaoPaulo, 2018, 2, 17, 23}, {zSaoPaulo, 2018, 2, 18, 1},
+		{zHavana, 2024, 3, 10, 12}, {zHavana, 2024, 3, 9, 23}, {zHavana, 2024, 11, 3, 0}, {zHavana, 2024, 11, 3, 12},
+		{zKathmandu, 1986, 1, 1, 12}, {zKathmandu, 1985, 12, 31, 23},
+		{zApia, 2011, 12, 29, 12}, {zApia, 2011, 12, 31, 12}, {zApia, 2011, 12, 29, 23}, {zApia, 2012, 1, 2, 3},
+		{zLordHowe, 2024, 4, 7, 1}, {zLordHowe, 2024, 4, 7, 12}, {zLordHowe, 2024, 10, 6, 2}, {zLordHowe, 2024, 10, 6, 12},
+		{zNY, 2024, 3, 10, 1}, {zNY, 2024, 11, 3, 1}, {zBerlin, 2024, 10, 27, 2}, {zBerlin, 1945, 5, 24, 12}, {zBerlin, 1916, 4, 30, 22},
+	} {
+		for _, w := range []int64{0, 1, 3} {
+			t := at(x.z, x.y, x.m, x.d, x.h, 30, 0, 0)
+			cs = append(cs, Case{Kind: "inst", Zone: x.z, Local: x.z, T: t, W: w, Kw: w - 1, Nd: w - 1, H: int64(x.h), M: 30, S: 0, Class: "irregular-day"})
+			cs = append(cs, Case{Kind: "pair", Zone: x.z, Local: x.z, Zone2: x.z, T: t, T2: Inst{t.S + 86400*(w-1) + 1800, 0}, Class: "irregular-day"})
+		}
+		cs = append(cs, Case{Kind: "date", Zone: x.z, Local: x.z, F: [7]int64{int64(x.y), int64(x.m), int64(x.d), 0, 0, 0, 0}, Class: "irregular-day"})
+		cs = append(cs, Case{Kind: "date", Zone: x.z, Local: x.z, F: [7]int64{int64(x.y), int64(x.m), int64(x.d), int64(x.h), 30, 0, 0}, Class: "irregular-day"})
+	}
 	return cs
 }
